@@ -227,7 +227,9 @@ ODD_NAMES = ["slot[1]", "slot1", "s*", "done?", "done!", "a.b", "a+b"]
 def _num(x):
     """in the `int_numbers` mode whole numbers are handed over as Python ints (1 instead of 1.0): legal everywhere
     a number is expected, and the same number"""
-    if CTX.scenario is not None and CTX.scenario.get("int_numbers") and isinstance(x, float) and x.is_integer() and abs(x) < 2.0 ** 50:
+    if CTX.scenario is not None and CTX.scenario.get("int_numbers") and isinstance(x, float) and x.is_integer() and abs(x) < 2.0 ** 24:
+        # (below 2^24: sums of three squares of such numbers are exact in doubles too; Python's integer arithmetic is exact at
+        # any size, doubles are not, and the model computes in doubles)
         return int(x)
     return x
 
